@@ -276,10 +276,13 @@ fn run(ctx: &RunCtx) -> Report {
     // (another UDP port: a second client on one host, or the neighbour behind one NAT) announces itself for the
     // same info hash after the writer did. The writer's own endpoint stays announced.
     let mut xrng = Rng::new(crate::rng::key(ctx.seed, &[crate::rng::tag("c01-roommate-inflight")]));
+    // nodes added after the network was built (they count towards the 20-candidate envelope like any other)
+    let mut latecomers: Vec<HostId> = vec![];
     if kind == 2 && !large && xrng.chance(1, 3) {
         let mut rs = NodeSpec::new(writer_ip, 6890);
         rs.bootstrap = vec![sim.node_addr(net.first).to_string()];
         let mate = sim.add_node(rs);
+        latecomers.push(mate);
         let b = sim.bootstrapped(mate);
         sim.run_ops(&[b], sim.now() + 60 * SEC);
         let o = sim.announce_peer(mate, info_hash, if xrng.chance(1, 2) { Some(xrng.range(1, 65535) as u16) } else { None });
@@ -398,7 +401,13 @@ fn run(ctx: &RunCtx) -> Report {
     // deterministic verdict no longer applies (completeness is then probabilistic)
     // (crashed servers count too: they stay in the tables for 15+ minutes and keep their rank among
     // the 20 candidates of a lookup, as do the former identities of restarted ones)
-    let switched = live.iter().filter(|h| !net.servers.contains(h) && sim.snapshot(**h).map(|s| s.server_mode).unwrap_or(false)).count();
+    for h in &latecomers {
+        sim.want_snapshot(*h);
+    }
+    if !latecomers.is_empty() {
+        sim.run_for(600 * MS);
+    }
+    let switched = live.iter().chain(latecomers.iter()).filter(|h| !net.servers.contains(h) && sim.alive(**h) && sim.snapshot(**h).map(|s| s.server_mode).unwrap_or(false)).count();
     let servers_now = net.servers.len() + restarted.len() + switched;
     let beyond_envelope = servers_now > 20 && !large;
     if beyond_envelope {
